@@ -9,6 +9,7 @@ import (
 	"errors"
 	"fmt"
 	"net/http"
+	"net/url"
 	"os"
 	"runtime"
 	"strings"
@@ -120,21 +121,20 @@ func (c *Container) addHandler(service *WebService, serveMux *http.ServeMux) boo
 		serveMux.HandleFunc("/", c.dispatch)
 		return true
 	}
-	// detect if registration already exists
-	alreadyMapped := false
-	for _, each := range c.webServices {
-		if each.RootPath() == service.RootPath() {
-			alreadyMapped = true
-			break
-		}
-	}
-	if !alreadyMapped {
+	// detect if registration already exists ; WebServices with different root paths can share the fixed prefix
+	if !isPatternMapped(serveMux, pattern) {
 		serveMux.HandleFunc(pattern, c.dispatch)
-		if !strings.HasSuffix(pattern, "/") {
-			serveMux.HandleFunc(pattern+"/", c.dispatch)
-		}
+	}
+	if !strings.HasSuffix(pattern, "/") && !isPatternMapped(serveMux, pattern+"/") {
+		serveMux.HandleFunc(pattern+"/", c.dispatch)
 	}
 	return false
+}
+
+// isPatternMapped tells whether exactly this pattern is registered on the serveMux.
+func isPatternMapped(serveMux *http.ServeMux, pattern string) bool {
+	_, mapped := serveMux.Handler(&http.Request{Method: http.MethodGet, URL: &url.URL{Path: pattern}})
+	return mapped == pattern
 }
 
 func (c *Container) Remove(ws *WebService) error {
